@@ -85,11 +85,12 @@ def run(ctx):
     # exhaustive part
     nmax = ctx.pick(3, 4)
     for n in range(0, nmax + 1):
-        for m in all_maps(n, lambda k, n=n: list(range(n)) + [99]):
+        # n <= 3: dependency sets over all modules incl. itself + one unknown; n = 4: without self-dependency
+        for m in all_maps(n, lambda k, n=n: [x for x in range(n) if n <= 3 or x != k] + [99]):
             cases.append(m)
     exhaustive_upto = nmax
     # sampled part: n = 4 (quick) / n = 5,6 (thorough), shuffled key order and key names
-    for _ in range(ctx.pick(3000, 40000)):
+    for _ in range(ctx.pick(3000, 30000)):
         n = rng.choice(ctx.pick([4, 4, 5], [5, 5, 6, 7]))
         names = rng.sample(range(0, 12), n)
         m = []
